@@ -1,14 +1,17 @@
 #!/bin/bash
 # tools/blind_refactors.sh <dir-with-<ID>/rN/patch.diff> <ID>...  — apply each behaviour-preserving
-# refactoring to /repo, run ALL checks, undo.  Any report is a false alarm of the machinery.
+# refactoring to a scratch worktree of /repo (BLIND_REPO, default /repo itself), run ALL checks, undo.
+# Any report is a false alarm of the machinery.
+export GOFLAGS=-mod=mod GOPROXY=off GOSUMDB=off GOTOOLCHAIN=local; unset GOWORK
+R=${BLIND_REPO:-/repo}
 base=$1; shift
 for id in "$@"; do for r in r1 r2 r3 r4; do
   p=$base/$id/$r/patch.diff
   [ -f $p ] || { echo "$id-$r: no patch"; continue; }
-  git -C /repo apply $p 2>/dev/null || { echo "$id-$r: does not apply"; continue; }
-  out=$(/verif/engine/slcheck -repo /repo -verif /verif -prop all -tier quick -no-evidence 2>&1)
-  git -C /repo checkout -- . ; git -C /repo clean -fdq
+  git -C $R apply $p 2>/dev/null || { echo "$id-$r: does not apply"; continue; }
+  out=$(/verif/engine/slcheck -repo $R -verif /verif -prop all -tier quick -no-evidence 2>&1)
+  git -C $R checkout -- . ; git -C $R clean -fdq
   n=$(echo "$out" | grep -c "VIOLATION\|CANNOT-DECIDE\|load failed\|panic")
   echo "$id-$r: alarms=$n"
-  [ $n -gt 0 ] && echo "$out" | grep "VIOLATION\|CANNOT\|panic" | head -6
+  [ $n -gt 0 ] && echo "$out" | grep "VIOLATION \[\|CANNOT\|panic" | cut -c1-420 | head -6
 done; done
